@@ -628,6 +628,9 @@ Section CallProofs.
     (forall k, ~ In k (skeys cs) -> aget k R = aget k res0) /\
     (forall kc, In kc cs -> exists vs, args inj R (fst kc) (deps kc) = Some vs /\ aget (fst kc) R = Some (fn kc vs)).
 
+  (* no entry and no derived key is literally named self (it would collide with the methods' own self parameter) *)
+  Definition no_self (res0 : amap V) (cs : list fdef) : Prop := aget "self"%string res0 = None /\ ~ In "self"%string (skeys cs).
+
   Lemma arg_ext R1 R2 k d : aget d R1 = aget d R2 -> arg inj R1 k d = arg inj R2 k d.
   Proof. unfold arg. intros ->. reflexivity. Qed.
   Lemma args_ext R1 R2 k ds : (forall d, In d ds -> arg inj R1 k d = arg inj R2 k d) -> args inj R1 k ds = args inj R2 k ds.
@@ -671,11 +674,12 @@ Section CallProofs.
   Proof. intros H. unfold arg. rewrite aget_aset. destruct (String.eqb_spec d k); [contradiction|reflexivity]. Qed.
 
   Lemma step res0 cs P res kc :
-    NoDup (skeys cs) -> avail res0 cs -> Inv res0 cs P res -> In kc cs -> In (fst kc) P ->
+    NoDup (skeys cs) -> avail res0 cs -> no_self res0 cs -> Inv res0 cs P res -> In kc cs -> In (fst kc) P ->
     (forall d, In d (deps kc) -> ~ In d P) ->
     exists res', eval1 inj res kc = Some res' /\ Inv res0 cs (pminus P [fst kc]) res'.
   Proof.
-    intros HN HA [I1 [I2 I3]] Hkc HkP Hd.
+    intros HN HA [HS0 HSk] [I1 [I2 I3]] Hkc HkP Hd.
+    assert (HSr : aget "self"%string res = None) by (rewrite (I1 _ HSk); exact HS0).
     assert (Hargs : exists vs, args inj res (fst kc) (deps kc) = Some vs).
     { apply args_some. intros d Hdd. unfold arg. destruct (aget d res) eqn:E; [discriminate|].
       destruct (HA kc d Hkc Hdd) as [H|[H|H]].
@@ -684,7 +688,7 @@ Section CallProofs.
         destruct (I3 kc' Hkc' (Hd _ Hdd)) as [_ [vs [_ G]]]. congruence.
       - subst d. simpl. discriminate. }
     destruct Hargs as [vs Hvs]. exists (aset (fst kc) (fn kc vs) res). split.
-    { unfold eval1. fold (deps kc). rewrite Hvs. reflexivity. }
+    { unfold eval1. rewrite HSr. fold (deps kc). rewrite Hvs. reflexivity. }
     assert (Hself : forall d, In d (deps kc) -> d <> fst kc) by (intros d Hdd ->; apply (Hd _ Hdd HkP)).
     split; [|split].
     - intros k Hk. rewrite aget_aset. destruct (String.eqb_spec k (fst kc)); [|auto].
@@ -711,13 +715,13 @@ Section CallProofs.
     | [] => True
     | kc :: l' => In kc cs /\ In (fst kc) P /\ (forall d, In d (deps kc) -> ~ In d P) /\ sched cs (pminus P [fst kc]) l'
     end.
-  Lemma run_sched res0 cs : NoDup (skeys cs) -> avail res0 cs -> forall l P res,
+  Lemma run_sched res0 cs : NoDup (skeys cs) -> avail res0 cs -> no_self res0 cs -> forall l P res,
     Inv res0 cs P res -> sched cs P l -> exists res', eval_seq inj res l = Some res' /\ Inv res0 cs (pminus P (skeys l)) res'.
   Proof.
-    intros HN HA. induction l as [|kc l IH]; intros P res HI HS; simpl.
+    intros HN HA HNS. induction l as [|kc l IH]; intros P res HI HS; simpl.
     - exists res. rewrite pminus_nil. auto.
     - destruct HS as [S1 [S2 [S3 S4]]].
-      destruct (step res0 cs P res kc HN HA HI S1 S2 S3) as [r1 [E1 I1]]. rewrite E1.
+      destruct (step res0 cs P res kc HN HA HNS HI S1 S2 S3) as [r1 [E1 I1]]. rewrite E1.
       destruct (IH _ _ I1 S4) as [r2 [E2 I2]]. exists r2. split; auto.
       rewrite pminus_pminus in I2. exact I2.
   Qed.
@@ -758,20 +762,20 @@ Section CallProofs.
   Proof. intros H. simpl. rewrite H. reflexivity. Qed.
 
   (* one round of the while loop *)
-  Lemma round res0 cs (cp : list fdef) res : NoDup (skeys cs) -> avail res0 cs ->
+  Lemma round res0 cs (cp : list fdef) res : NoDup (skeys cs) -> avail res0 cs -> no_self res0 cs ->
     incl cp cs -> NoDup (skeys cp) -> Inv res0 cs (skeys cp) res ->
     let ind := filter (independent (skeys cp)) cp in
     let cp' := filter (fun kc => negb (inl (fst kc) (skeys ind))) cp in
     exists r, eval_seq inj res ind = Some r /\ Inv res0 cs (skeys cp') r /\ incl cp' cs /\ NoDup (skeys cp') /\
               (ind <> [] -> List.length cp' < List.length cp).
   Proof.
-    intros HN HA Hincl HNp HI ind cp'.
+    intros HN HA HNS Hincl HNp HI ind cp'.
     assert (HS : sched cs (skeys cp) ind).
     { apply round_sched.
       - apply NoDup_map_filter'. exact HNp.
       - intros kc Hkc. apply filter_In in Hkc. destruct Hkc as [H1 H2]. split; [auto|]. split; [apply in_map; auto|].
         apply independent_spec. exact H2. }
-    destruct (run_sched res0 cs HN HA ind _ res HI HS) as [r [E I]]. exists r. split; auto.
+    destruct (run_sched res0 cs HN HA HNS ind _ res HI HS) as [r [E I]]. exists r. split; auto.
     assert (EK : skeys cp' = pminus (skeys cp) (skeys ind)).
     { unfold cp', skeys, pminus. apply (akeys_filter (fun k => negb (inl k (map fst ind)))). }
     rewrite EK. split; auto. split; [|split].
@@ -783,11 +787,11 @@ Section CallProofs.
       apply negb_false_iff. apply inl_In. simpl. auto.
   Qed.
 
-  Lemma loop_ok res0 cs : NoDup (skeys cs) -> avail res0 cs -> acyclic cs ->
+  Lemma loop_ok res0 cs : NoDup (skeys cs) -> avail res0 cs -> no_self res0 cs -> acyclic cs ->
     forall fuel (cp : list fdef) res, incl cp cs -> NoDup (skeys cp) -> List.length cp <= fuel -> Inv res0 cs (skeys cp) res ->
     exists R, call_loop inj fuel cp res = COk R /\ Inv res0 cs [] R.
   Proof.
-    intros HN HA HC. induction fuel as [|f IH]; intros cp res Hincl HNp Hlen HI;
+    intros HN HA HNS HC. induction fuel as [|f IH]; intros cp res Hincl HNp Hlen HI;
       destruct (List.length cp <=? 1) eqn:El.
     1, 3: (rewrite call_loop_small by auto; apply Nat.leb_le in El;
       assert (HS : sched cs (skeys cp) cp);
@@ -795,11 +799,11 @@ Section CallProofs.
         intros d Hd Hin; destruct HC as [rank Hr];
         assert (d = fst kc) by (destruct cp as [|x [|y cp]]; simpl in *; try lia; intuition congruence);
         subst d; specialize (Hr kc (fst kc) (Hincl _ Hkc) Hd (in_map fst _ _ (Hincl _ Hkc))); lia
-      | destruct (run_sched res0 cs HN HA cp _ res HI HS) as [r [E I]]; rewrite E; exists r; split; auto;
+      | destruct (run_sched res0 cs HN HA HNS cp _ res HI HS) as [r [E I]]; rewrite E; exists r; split; auto;
         rewrite pminus_all in I by auto; exact I ]).
     - apply Nat.leb_gt in El. lia.
     - rewrite call_loop_S by auto. apply Nat.leb_gt in El.
-      destruct (round res0 cs cp res HN HA Hincl HNp HI) as [r [E [I [Hi' [HN' Hl]]]]].
+      destruct (round res0 cs cp res HN HA HNS Hincl HNp HI) as [r [E [I [Hi' [HN' Hl]]]]].
       set (ind := filter (independent (skeys cp)) cp) in *.
       assert (Hne : ind <> []).
       { destruct HC as [rank Hr].
@@ -838,13 +842,25 @@ Section CallProofs.
   Lemma Inv_solves res0 cs R : Inv res0 cs [] R -> solves res0 cs R.
   Proof. intros [I1 [_ I3]]. split; auto. intros kc Hkc. destruct (I3 kc Hkc) as [_ H]; auto. Qed.
 
+  (* neither the mapping nor the keywords use the name self *)
+  Definition self_free (base : amap V) (kw : list (string * @item V)) : Prop :=
+    aget "self"%string base = None /\ ~ In "self"%string (map fst kw).
+  Lemma self_free_no_self base kw : self_free base kw ->
+    no_self (aupdate base (consts kw)) (funs kw) /\ inl "self"%string (map fst kw) = false.
+  Proof.
+    intros [H1 H2]. split; [split|].
+    - rewrite aget_aupdate_notin; auto. intros Hin. apply H2. apply keys_consts. exact Hin.
+    - intros Hin. apply H2. apply skeys_funs. exact Hin.
+    - apply inl_false. exact H2.
+  Qed.
+
   (* acyclic definitions: the call succeeds and returns a dependency-order evaluation *)
-  Theorem dict_call_solves base kw : NoDup (map fst kw) ->
+  Theorem dict_call_solves base kw : NoDup (map fst kw) -> self_free base kw ->
     avail (aupdate base (consts kw)) (funs kw) -> acyclic (funs kw) ->
     exists R, dict_call inj base kw = COk R /\ solves (aupdate base (consts kw)) (funs kw) R.
   Proof.
-    intros HN HA HC. unfold dict_call.
-    destruct (loop_ok _ _ (NoDup_skeys_funs kw HN) HA HC (List.length (funs kw)) (funs kw) (aupdate base (consts kw)))
+    intros HN HSF HA HC. destruct (self_free_no_self base kw HSF) as [HNS Hinl]. unfold dict_call. rewrite Hinl.
+    destruct (loop_ok _ _ (NoDup_skeys_funs kw HN) HA HNS HC (List.length (funs kw)) (funs kw) (aupdate base (consts kw)))
       as [R [E I]]; auto using incl_refl, NoDup_skeys_funs, Inv_init.
     exists R. split; auto. apply Inv_solves. exact I.
   Qed.
@@ -859,11 +875,14 @@ Section CallProofs.
   Qed.
 
   (* the result does not depend on the order of the keywords *)
-  Theorem call_order_independent base kw kw' : Permutation kw kw' -> NoDup (map fst kw) ->
+  Theorem call_order_independent base kw kw' : Permutation kw kw' -> NoDup (map fst kw) -> self_free base kw ->
     avail (aupdate base (consts kw)) (funs kw) -> acyclic (funs kw) ->
     exists R R', dict_call inj base kw = COk R /\ dict_call inj base kw' = COk R' /\ forall k, aget k R = aget k R'.
   Proof.
-    intros HP HN HA HC.
+    intros HP HN HSF HA HC.
+    assert (HSF' : self_free base kw').
+    { destruct HSF as [S1 S2]. split; auto. intros Hin. apply S2.
+      eapply Permutation_in; [apply Permutation_sym, Permutation_map; exact HP|exact Hin]. }
     assert (HN' : NoDup (map fst kw')) by (eapply Permutation_NoDup; [apply Permutation_map; exact HP|auto]).
     assert (HPf : Permutation (funs kw) (funs kw')) by (apply Permutation_flat_map; auto).
     assert (HPc : Permutation (consts kw) (consts kw')) by (apply Permutation_flat_map; auto).
@@ -879,8 +898,8 @@ Section CallProofs.
     { intros kc d Hkc Hd. destruct (HA kc d (proj2 (HF kc) Hkc) Hd) as [H|[H|H]]; [left; rewrite <- HR; auto|right; left; apply HK; auto|auto]. }
     assert (HC' : acyclic (funs kw')).
     { destruct HC as [rank Hr]. exists rank. intros kc d Hkc Hd Hin. apply Hr; auto; [apply HF|apply HK]; auto. }
-    destruct (dict_call_solves base kw HN HA HC) as [R [E S]].
-    destruct (dict_call_solves base kw' HN' HA' HC') as [R' [E' [S1 S2]]].
+    destruct (dict_call_solves base kw HN HSF HA HC) as [R [E S]].
+    destruct (dict_call_solves base kw' HN' HSF' HA' HC') as [R' [E' [S1 S2]]].
     exists R, R'. split; auto. split; auto.
     apply (solves_unique (aupdate base (consts kw)) (funs kw)); auto.
     split.
@@ -889,32 +908,32 @@ Section CallProofs.
   Qed.
 
   (* and it equals sequential evaluation in ANY topological order of the callables *)
-  Theorem call_is_topological_evaluation base kw order : NoDup (map fst kw) ->
+  Theorem call_is_topological_evaluation base kw order : NoDup (map fst kw) -> self_free base kw ->
     avail (aupdate base (consts kw)) (funs kw) -> acyclic (funs kw) ->
     Permutation order (funs kw) -> sched (funs kw) (skeys (funs kw)) order ->
     exists R R', dict_call inj base kw = COk R /\ eval_seq inj (aupdate base (consts kw)) order = Some R' /\
                  forall k, aget k R = aget k R'.
   Proof.
-    intros HN HA HC HP HS. destruct (dict_call_solves base kw HN HA HC) as [R [E S]].
-    destruct (run_sched _ _ (NoDup_skeys_funs kw HN) HA order _ _ (Inv_init _ _) HS) as [R' [E' I]].
+    intros HN HSF HA HC HP HS. destruct (dict_call_solves base kw HN HSF HA HC) as [R [E S]].
+    destruct (run_sched _ _ (NoDup_skeys_funs kw HN) HA (proj1 (self_free_no_self base kw HSF)) order _ _ (Inv_init _ _) HS) as [R' [E' I]].
     exists R, R'. split; auto. split; auto.
     apply (solves_unique (aupdate base (consts kw)) (funs kw)); auto. apply Inv_solves.
     rewrite pminus_all in I; auto. intros k Hk. eapply Permutation_in; [apply Permutation_sym, Permutation_map; exact HP|auto].
   Qed.
 
   (* circular definitions *)
-  Lemma loop_cycle res0 cs S : NoDup (skeys cs) -> avail res0 cs ->
+  Lemma loop_cycle res0 cs S : NoDup (skeys cs) -> avail res0 cs -> no_self res0 cs ->
     (forall kc, In kc cs -> In (fst kc) S -> exists d, In d (deps kc) /\ In d S) ->
     (exists k1 k2, In k1 S /\ In k2 S /\ k1 <> k2) ->
     forall fuel (cp : list fdef) res, incl cp cs -> NoDup (skeys cp) -> List.length cp <= fuel -> Inv res0 cs (skeys cp) res ->
     (forall k, In k S -> In k (skeys cp)) -> call_loop inj fuel cp res = CErr "ValueError".
   Proof.
-    intros HN HA Hcyc [k1 [k2 [H1 [H2 H12]]]]. induction fuel as [|f IH]; intros cp res Hincl HNp Hlen HI HS;
+    intros HN HA HNS Hcyc [k1 [k2 [H1 [H2 H12]]]]. induction fuel as [|f IH]; intros cp res Hincl HNp Hlen HI HS;
       (assert (L2 : 2 <= List.length (skeys cp)) by (apply (two_distinct _ k1 k2); auto);
        unfold skeys in L2; rewrite map_length in L2).
     - exfalso. pose proof (Nat.le_trans _ _ _ L2 Hlen) as Hc. inversion Hc.
     - rewrite call_loop_S by (apply Nat.leb_gt; exact L2).
-      destruct (round res0 cs cp res HN HA Hincl HNp HI) as [r [E [I [Hi' [HN' Hl]]]]].
+      destruct (round res0 cs cp res HN HA HNS Hincl HNp HI) as [r [E [I [Hi' [HN' Hl]]]]].
       set (ind := filter (independent (skeys cp)) cp) in *. cbv zeta.
       destruct ind as [|i0 ind'] eqn:Eind; [reflexivity|]. rewrite E.
       apply IH; auto.
@@ -930,14 +949,14 @@ Section CallProofs.
 
   (* a set S of derived keys, at least two of them, each depending on a member of S (in particular any
      dependency cycle of length >= 2): ValueError *)
-  Theorem call_cycle_raises base kw S : NoDup (map fst kw) ->
+  Theorem call_cycle_raises base kw S : NoDup (map fst kw) -> self_free base kw ->
     avail (aupdate base (consts kw)) (funs kw) ->
     (forall k, In k S -> In k (skeys (funs kw))) ->
     (forall kc, In kc (funs kw) -> In (fst kc) S -> exists d, In d (deps kc) /\ In d S) ->
     (exists k1 k2, In k1 S /\ In k2 S /\ k1 <> k2) ->
     dict_call inj base kw = CErr "ValueError".
   Proof.
-    intros HN HA HS Hcyc H2. unfold dict_call.
+    intros HN HSF HA HS Hcyc H2. destruct (self_free_no_self base kw HSF) as [HNS Hinl]. unfold dict_call. rewrite Hinl.
     apply (loop_cycle (aupdate base (consts kw)) (funs kw) S); auto using incl_refl, NoDup_skeys_funs, Inv_init.
   Qed.
 
@@ -955,7 +974,7 @@ Section CallProofs.
       apply (filter_length_lt _ cp i0); [tauto|]. apply negb_false_iff. apply inl_In. simpl. auto.
   Qed.
   Theorem dict_call_terminates base kw : dict_call inj base kw <> CErr "fuel".
-  Proof. unfold dict_call. apply call_loop_terminates. auto. Qed.
+  Proof. unfold dict_call. destruct (inl "self"%string (map fst kw)); [discriminate|]. apply call_loop_terminates. auto. Qed.
 End CallProofs.
 
 (* ================================================================== the concrete hashables of the correspondence form a lawful == *)
